@@ -260,3 +260,5 @@ def run(ctx):
     from engine.effects import Effects as _Eff
     own_overwrite(ctx, prog, own, _Eff(prog))
 
+    from engine.fdvalid import state_pair
+    state_pair(ctx, prog)
